@@ -80,10 +80,31 @@ func runRace(c *ctx) error {
 			t    tableLike
 			qs   []string
 		}
+		// a reflog of incompressible records in small blocks: some log blocks are longer than the read window
+		var inc tableCase
+		inc.cfg = tcfg{BlockSize: uint32(150 + c.rng.Intn(60)), Exact: true, Restart: 3}
+		inc.min, inc.max = 1, 9
+		for k := 0; k < 60; k++ {
+			h1 := make([]byte, 20)
+			h2 := make([]byte, 20)
+			c.rng.Read(h1)
+			c.rng.Read(h2)
+			nm := make([]byte, 6)
+			c.rng.Read(nm)
+			inc.logs = append(inc.logs, reftable.LogRecord{RefName: fmt.Sprintf("r%03d", k), UpdateIndex: 5, New: h1, Old: h2,
+				Name: hx(nm), Email: hx(nm[:3]), Time: c.rng.Uint64(), Message: hx(nm)})
+		}
+		var incRd *reftable.Reader
+		if w, d := writeTable(inc.cfg, inc.min, inc.max, nil, inc.logs); strings.HasPrefix(w, "ok:") {
+			incRd, _ = openReader(d)
+		}
 		targets := []target{
 			{"reader/memory", memRd, tableQueries(c, &big, "c01")},
 			{"reader/file", fileRd, tableQueries(c, &big, "c01")},
 			{"merged", merged, stackQueries(c, ts, 6)},
+		}
+		if incRd != nil {
+			targets = append(targets, target{"reader/incompressible-logs", incRd, tableQueries(c, &inc, "c02")})
 		}
 		for _, tg := range targets {
 			if len(tg.qs) == 0 {
